@@ -74,6 +74,10 @@ func TestPlan(t *testing.T) {
 		// the binary leg of the formatter properties: `spok --fmt` on generated files
 		p.Rule = "binary leg: generated spokfiles (random layouts, comments in every position, side-effect-free loading) formatted in place by `spok --fmt` in the sandbox; the file afterwards is parsed in-process and judged by the same projection as the in-process leg (C11: a second --fmt leaves it byte-identical). Non-trivial: the file changed; distinct by source"
 		binShards("^TestFmtBinary$", 8, 40, 16, 600)
+	case "C08":
+		// the binary leg of C08: the CLI reports exactly the parser's located error for the file's text
+		p.Rule = "binary leg: permissive-grammar texts (with blank / whitespace-only lines added in front or behind) that do not parse are written as a spokfile; `spok --show` and `spok --fmt` must terminate, exit non-zero without a Go panic and print the very error the parser gives for that text (same line number, same quoted line)"
+		binShards("^TestErrBinary$", 8, 60, 16, 800)
 	case "C03":
 		// the binary leg of C03: the selected task comes from the command line, from the default task or from `--clean`
 		p.Rule = "binary leg: graphs on 1-4 tasks (cyclic and acyclic, optional undefined dependency) where the first task is selected by name, implicitly as the default task (bare `spok`) or as the user-defined clean task (`spok --clean`), with and without --force/--json/--quiet; the side-effect log must show the selected task's closure exactly once, dependencies first, or an error and no command at all"
@@ -98,7 +102,7 @@ func TestPlan(t *testing.T) {
 		p.Level = "fault_enumeration"
 		binShards("^TestKill$", 16, 25, 16, 350)
 		p.Shards = append(p.Shards, ev.ShardSpec{Name: "prefixes-0", Test: "^TestKillPrefixes$", TimeoutS: 3600})
-		sc := ev.RangeShards("syscalls", "^TestKillSyscalls$", 16, 1, nil)
+		sc := ev.RangeShards("syscalls", "^TestKillSyscalls$", 48, 1, nil)
 		for i := range sc {
 			sc[i].TimeoutS = 3600
 		}
@@ -121,6 +125,7 @@ func TestPlan(t *testing.T) {
 		}
 		bs := ev.RapidShards("binary", "^TestFindBinary$", nb, cb, nil)
 		p.Shards = append(p.Shards, bs...)
+		p.Shards = append(p.Shards, ev.ShardSpec{Name: "deep-0", Test: "^TestFindDeep$", TimeoutS: 1200})
 	}
 	if err := ev.WritePlan(p); err != nil {
 		t.Fatal(err)
@@ -185,6 +190,56 @@ func TestFindEnum(t *testing.T) {
 	}
 }
 
+// TestFindDeep: long chains (a working directory dozens of levels below its spokfile).
+func TestFindDeep(t *testing.T) {
+	s := ev.Open(t, "C17")
+	s.Watchdog(10*time.Second, 4<<30)
+	defer s.Done()
+	base := findBase(t)
+	seen := map[string]bool{}
+	for _, depth := range []int{16, 31, 32, 33, 34, 40, 64, 65, 100} {
+		for _, top := range []int{lvSpokfile, lvSpokBefore, lvNothing, lvDirSpok} {
+			for _, stop := range []int{0, 1, depth / 2, -1} {
+				c := FindCase{Start: depth - 1, Stop: stop}
+				for i := 0; i < depth; i++ {
+					cfg := lvNothing
+					if i == 0 {
+						cfg = top
+					}
+					c.Cfg = append(c.Cfg, cfg)
+					if i+1 < depth {
+						c.Child = append(c.Child, []string{"d", "t"}[i%2])
+					}
+				}
+				if err := c.build(base); err != nil {
+					t.Fatal(err)
+				}
+				data, _ := json.Marshal(c)
+				s.Progress(uint64(depth), data)
+				s.Tick()
+				s.Eval()
+				s.Class("deep_chain")
+				if depth == 40 && top == lvSpokfile && stop == 0 {
+					s.Sample(map[string]any{"depth": depth, "spokfile_at_level": 0, "start_level": depth - 1, "stop_level": stop})
+				}
+				if f := execFind(s, base, c); f != nil {
+					if s.IsKnown(f.Sig) {
+						s.Known(f.Sig, c)
+						continue
+					}
+					if !seen[f.Sig] {
+						seen[f.Sig] = true
+						s.Violation("find", f.Sig, f.Msg, f.Size, c)
+					}
+				}
+			}
+		}
+	}
+	if s.Failed() {
+		t.Fatal("violations recorded")
+	}
+}
+
 // TestReplay re-executes one saved case.
 func TestReplay(t *testing.T) {
 	data, err := os.ReadFile(os.Getenv("VERIF_REPLAY"))
@@ -239,6 +294,12 @@ func TestReplay(t *testing.T) {
 
 func replayOther(t *testing.T, v ev.Violation, raw []byte) *rp.Fail {
 	switch v.Kind {
+	case "errbin":
+		var c ErrCase
+		if err := json.Unmarshal(raw, &c); err != nil {
+			t.Fatal(err)
+		}
+		return execErrBinary(nil, newBox(t), c)
 	case "graphbin":
 		var c GraphBinCase
 		if err := json.Unmarshal(raw, &c); err != nil {
@@ -400,6 +461,18 @@ func execFindBinary(s *ev.Shard, b *sandbox.Box, c FindCase) *rp.Fail {
 	return nil
 }
 
+func TestErrBinary(t *testing.T) {
+	s := ev.Open(t, "C08")
+	b := newBox(t)
+	rp.Check(t, s, "errbin", genErr, func(c ErrCase) *rp.Fail {
+		s.Class("space_binary_errors")
+		if s.WantSample() {
+			s.Sample(map[string]any{"spokfile": c.Src})
+		}
+		return execErrBinary(s, b, c)
+	})
+}
+
 func TestGraphBinary(t *testing.T) {
 	s := ev.Open(t, "C03")
 	b := newBox(t)
@@ -455,8 +528,11 @@ func TestFmtBinary(t *testing.T) {
 	b := newBox(t)
 	rp.Check(t, s, "fmtbin", genFmt, func(c FmtCase) *rp.Fail {
 		s.Class("space_binary_fmt")
-		if s.WantSample() {
+		if s.WantSample() && len(c.Src) < 2000 {
 			s.Sample(map[string]any{"spokfile_formatted_by_the_binary": c.Src})
+		}
+		if len(c.Src) > 60000 {
+			s.Class("line_around_64KiB")
 		}
 		return execFmtBinary(id(), s, b, c)
 	})
@@ -587,25 +663,31 @@ func TestKillSyscalls(t *testing.T) {
 	progs := [][]KTask{
 		{{Name: "A", Files: []string{"f1.txt"}}, {Name: "B", Files: []string{"f2.txt"}}},
 		{{Name: "A", Files: []string{"f1.txt"}, Deps: []string{"B"}}, {Name: "B", Globs: []string{"*.txt"}}},
+		{{Name: "A", Files: []string{"f1.txt"}}}, // a cache that holds one digest only
 	}
 	init := map[string]string{"f1.txt": "0", "f2.txt": "0"}
-	run := func(tasks ...string) KStep { return KStep{Op: "run", Tasks: tasks, CutAbs: -1} }
 	w := func(f, c string) KStep { return KStep{Op: "write", File: f, Content: c, CutAbs: -1} }
 	conts := [][]KStep{{}, {w("f1.txt", "0")}, {w("f2.txt", "1")}, {w("f1.txt", "0"), w("f2.txt", "0")}}
 	if !ev.Thorough() {
 		conts = conts[:2]
 	}
-	lo, hi := ev.RangeFromEnv() // index into (program, syscall)
+	lo, hi := ev.RangeFromEnv() // index into (program, syscall, forced?)
 	sysNames := []string{"openat", "write", "renameat", "renameat2", "mkdirat", "unlinkat", "fsync", "close"}
 	seen := map[string]bool{}
-	for idx := lo; idx < hi && idx < uint64(len(progs)*len(sysNames)); idx++ {
-		prog, sys := progs[idx/uint64(len(sysNames))], sysNames[idx%uint64(len(sysNames))]
+	for idx := lo; idx < hi && idx < uint64(2*len(progs)*len(sysNames)); idx++ {
+		forced := idx%2 == 1
+		prog, sys := progs[(idx/2)/uint64(len(sysNames))], sysNames[(idx/2)%uint64(len(sysNames))]
+		var all []string
+		for _, t := range prog {
+			all = append(all, t.Name)
+		}
+		run := func() KStep { return KStep{Op: "run", Tasks: all, CutAbs: -1} }
 		for n := 1; n <= 400; n++ {
 			killedAny := false
 			for ci, cont := range conts {
-				steps := []KStep{run("A", "B"), w("f1.txt", "1"), w("f2.txt", "2"), {Op: "run", Tasks: []string{"A", "B"}, Sys: sys, When: n, CutAbs: -1}}
+				steps := []KStep{run(), w("f1.txt", "1"), w("f2.txt", "2"), {Op: "run", Tasks: all, Force: forced, Sys: sys, When: n, CutAbs: -1}}
 				steps = append(steps, cont...)
-				steps = append(steps, run("A", "B"))
+				steps = append(steps, run())
 				c := KillCase{Tasks: prog, Init: init, Steps: steps}
 				s.Eval()
 				s.Class("enumerated_syscall_crash_point")
